@@ -145,9 +145,12 @@ struct CliCase {
 const FILE_LINK: &str = "lnk.py";
 const DIR_LINK: &str = "dirlnk.js";
 const LINK_TARGET_DIR: &str = ".targets";
+/// A path with non-ASCII characters (CLI phase): git prints it quoted, with octal escapes, in the
+/// headers of a diff (`core.quotePath` is on by default).
+const NON_ASCII: &str = "naïve dir/é.py";
 
 fn all_paths() -> Vec<&'static str> {
-    PATHS.iter().chain(HIDDEN).chain(GITIGNORED).copied().chain([FILE_LINK, DIR_LINK]).collect()
+    PATHS.iter().chain(HIDDEN).chain(GITIGNORED).copied().chain([FILE_LINK, DIR_LINK, NON_ASCII]).collect()
 }
 
 fn check_cli(cfg: &Cfg, c: &CliCase, sink: &Sink) {
@@ -200,7 +203,8 @@ fn check_cli(cfg: &Cfg, c: &CliCase, sink: &Sink) {
                     pair.set_old(&old_name, &format!("{padding}{}", file_text(tree[i]).replace("value = 1", "value = 0")));
                 }
                 pair.set_new(tree[i], &format!("{padding}{}", file_text(tree[i])));
-                pair.diff(0, &["-M"]).unwrap_or_default()
+                // Paths are quoted the way git quotes them by default.
+                pair.diff_cfg(0, &["-M"], true).unwrap_or_default()
             })
         });
         let mut args: Vec<String> = vec!["list".to_string()];
@@ -289,7 +293,12 @@ pub fn run(cfg: &Cfg, sink: &Arc<Sink>) -> Report {
     let mut cases = Vec::new();
     for tree in &trees {
         for globs in &cli_globs {
-            for ignores in &cli_ignores {
+            for (ii, ignores) in cli_ignores.iter().enumerate() {
+                // Quick: the full tree (18 paths, a dozen directories to start from) goes with four
+                // of the ignore sets; the small trees with all of them.
+                if !thorough && tree.len() > 2 && ![0usize, 4, 7, 8].contains(&ii) {
+                    continue;
+                }
                 let mut diffs: Vec<Option<usize>> = vec![None];
                 diffs.extend((0..tree.len()).map(Some));
                 for diff in diffs {
